@@ -121,6 +121,60 @@ def mutated_valid(D):
     return '\n'.join(lines)
 
 
+# statements that are not Python for a reason the tokenizer does not see (brackets and quotes are balanced): (first line, block lines)
+BROKEN = [
+    ('for i in range(3)', ['    print(i)']), ('if x = 1:', ['    pass']), ('def f(x)', ['    return x']), ('class A', ['    pass']),
+    ('while True print(1)', ['    pass']), ('try:', ['    pass']), ('with open(f) as', ['    pass']), ('x = 1 +', ['    * 2']),
+    ('return return', ['    1']), ('import', ['    os']), ('for in x:', ['    pass']), ('else:', ['    pass']), ('x = = 2', []),
+    ('1 +', []), ('def (a):', ['    pass', '    return a']), ('lambda x: for', ['    x']), ('elif x:', ['    y = 1', '    z = 2']),
+    ('x y z', []), ('a = 1 b = 2', []),
+]
+
+
+@composite
+def broken_doc(D):
+    """a docstring with broken doctest syntax by construction: sound examples around one statement that is not Python,
+    written in one of the layouts ('classic': one >>> line and ... lines; 'ps1': every line has >>>; 'single')"""
+    ind = D.choice(['', '    ', '        '])
+    good = [['>>> a = 1', '>>> print(a)', '1'], [">>> print('ok')", 'ok'], ['>>> for k in range(2):', '...     print(k)', '0', '1'], ['>>> b = 2']]
+    first, block = D.choice(BROKEN)
+    layout = D.choice(['classic', 'classic', 'ps1', 'single'])
+    if layout == 'single' or not block:
+        bad = ['>>> ' + first] if not block or D.bool() else ['>>> ' + first + ' ' + block[0].strip()]
+        # (joining the block onto the line keeps it broken: every entry is broken in its first line already)
+    elif layout == 'classic':
+        bad = ['>>> ' + first] + ['... ' + b for b in block]
+    else:
+        bad = ['>>> ' + first] + ['>>> ' + b for b in block]
+    if not is_broken_python('\n'.join(b[4:] for b in bad) + '\n'):
+        bad = ['>>> ' + first]
+    code = '\n'.join(b[4:] for b in bad) + '\n'
+    lines = []
+    if D.bool():
+        lines += ['Some prose first.', '']
+    for _ in range(D.int(0, 2)):
+        lines += D.choice(good) + ([''] if D.bool() else [])
+    lines += bad
+    if D.bool():
+        lines += D.choice([['1'], ['something'], ['']])
+    for _ in range(D.int(0, 2)):
+        lines += D.choice(good)
+    text = '\n'.join(ind + ln if ln else ln for ln in lines) + D.choice(['', '\n'])
+    return {'text': text, 'layout': layout, 'bad': '\n'.join(bad), 'code': code}
+
+
+def is_broken_python(code):
+    for mode in ('exec', 'single', 'eval'):
+        try:
+            compile(code, '<c14>', mode)
+            return False
+        except SyntaxError:
+            continue
+        except Exception:   # noqa
+            return False
+    return True
+
+
 class _Timeout(BaseException):   # not an Exception: the code under test wraps every Exception into DoctestParseError
     pass
 
@@ -133,8 +187,9 @@ def has_prompt(text):
     return any(ln.strip().startswith('>>>') for ln in text.split('\n'))
 
 
-def oracle(text, styles=('freeform', 'google', 'auto')):
-    """Raises Violation; returns ('error' | 'parts' | 'noparts')"""
+def oracle(text, styles=('freeform', 'google', 'auto'), must_error=None):
+    """Raises Violation; returns ('error' | 'parts' | 'noparts').  must_error: the statement (by construction not Python)
+    that makes this text one with broken doctest syntax"""
     from xdoctest import core, exceptions, parser
     outcome = None
     try:
@@ -158,6 +213,9 @@ def oracle(text, styles=('freeform', 'google', 'auto')):
         key = 'parse:escape:' + type(ex).__name__ + ':' + (v.key.split(':', 2)[-1] if v else '?')
         raise Violation(key, 'DoctestParser.parse let {} escape: {!r}\ntext={!r}'.format(type(ex).__name__, str(ex)[:200], text),
                         detail=v.detail if v else None)
+    if must_error is not None and outcome not in ('error', None):
+        raise Violation('parse:broken_accepted', 'the text holds a statement that is not Python ({!r}) but parse() returned parts instead of raising '
+                        'its parse error\ntext={!r}'.format(must_error, text))
     for style in styles:
         try:
             with warnings.catch_warnings(record=True) as wl, contextlib.redirect_stdout(io.StringIO()):
@@ -181,12 +239,12 @@ def oracle(text, styles=('freeform', 'google', 'auto')):
     return outcome
 
 
-def guarded_oracle(text, ctx=None):
+def guarded_oracle(text, ctx=None, must_error=None):
     """oracle with the watchdog of DESIGN 6.14 (4)"""
     old = signal.signal(signal.SIGALRM, _on_alarm)
     signal.alarm(20)
     try:
-        return oracle(text)
+        return oracle(text, must_error=must_error)
     except _Timeout:
         if ctx is not None:
             ctx.notes['slow_cases'] += 1
@@ -246,7 +304,7 @@ def check_case(case, ctx):
         finally:
             signal.alarm(0)
             signal.signal(signal.SIGALRM, old)
-    return guarded_oracle(text, ctx)
+    return guarded_oracle(text, ctx, must_error=case.get('bad'))
 
 
 # ---------------------------------------------------------------------------
@@ -287,7 +345,9 @@ def module_source(text, raw=False, decorated=False):
 def check_embedded(text, style):
     from xdoctest import core
     name = sandbox.unique_name('vpc14')
-    src = module_source(text, raw=len(text) % 2 == 0, decorated=len(text) % 3 != 0)
+    via_object = len(text) % 5 < 2
+    # (a live module is analysed dynamically; functools.lru_cache objects are not functions there, so no decorators then)
+    src = module_source(text, raw=len(text) % 2 == 0, decorated=len(text) % 3 != 0 and not via_object)
     try:
         compile(src, name, 'exec')
     except (SyntaxError, ValueError):
@@ -299,7 +359,16 @@ def check_embedded(text, style):
         try:
             try:
                 with sandbox.quiet():
-                    exs = list(core.parse_doctestables(path, style=style, analysis='static'))
+                    if via_object:
+                        # collection driven by the imported module object instead of its path
+                        import importlib.util
+                        spec = importlib.util.spec_from_file_location(name, path)
+                        modobj = importlib.util.module_from_spec(spec)
+                        sys.modules[name] = modobj
+                        spec.loader.exec_module(modobj)
+                        exs = list(core.parse_doctestables(modobj, style=style, analysis='auto'))
+                    else:
+                        exs = list(core.parse_doctestables(path, style=style, analysis='static'))
             except RecursionError:
                 return 'recursion'
             except BaseException as ex:  # noqa
@@ -348,6 +417,10 @@ def hyp_grammar(ctx, n_examples):
 
 def hyp_mutated(ctx, n_examples):
     engine.hyp_run(ctx, mutated_valid().map(lambda t: {'text': t, 'via': 'mutated'}), _check, n_examples)
+
+
+def hyp_broken(ctx, n_examples):
+    engine.hyp_run(ctx, broken_doc().map(lambda c: dict(c, via='broken:' + c['layout'])), _check, n_examples)
 
 
 def hyp_embedded(ctx, n_examples):
@@ -418,6 +491,10 @@ def selftest():
     # harness pieces only: the outcome for the code under test is decided by the jobs, not here
     compile(module_source('>>> x = (\n\x00'), 'm', 'exec')
     assert has_prompt('  >>> x') and not has_prompt('>> x')
+    for first, block in BROKEN:
+        assert is_broken_python(first + '\n'), first
+        assert is_broken_python('\n'.join([first] + block) + '\n'), first
+    assert not is_broken_python('x = 1\n') and not is_broken_python('for i in x:\n    pass\n')
     try:
         assert oracle('just text\n', styles=()) in ('noparts', 'parts', 'error')
     except Violation:
@@ -429,6 +506,7 @@ def jobs(tier):
     out = [('hyp_grammar#%d' % s, 'hyp_grammar', dict(n_examples=1500 if q else 60000)) for s in range(8)]
     out += [('hyp_mutated#%d' % s, 'hyp_mutated', dict(n_examples=800 if q else 25000)) for s in range(4)]
     out += [('hyp_embedded#%d' % s, 'hyp_embedded', dict(n_examples=500 if q else 6000)) for s in range(4)]
+    out += [('hyp_broken#%d' % s, 'hyp_broken', dict(n_examples=600 if q else 12000)) for s in range(2)]
     out += [('atheris_empty#0', 'atheris_job', dict(runs=15000 if q else 250000, corpus='empty')),
             ('atheris_repo#0', 'atheris_job', dict(runs=15000 if q else 250000, corpus='repo'))]
     if not q:
